@@ -354,6 +354,11 @@ func aGenOps(t *rapid.T, e *aEnv, p aProfile, fresh *int) []aOp {
 				op.V = nil
 			} else {
 				op.V.FL = false
+				if op.V.Op == "set" && key%3 != 1 && pct(t, "bigValue") < 12 {
+					// a value larger than the value file's write / read buffer (aof_file_buffer_size*64 bytes: 4 KiB with the
+					// smallest buffer), or several that add up to more than it
+					op.V.L = rapid.SampledFrom([]int{1500, 3000, 4090, 4093, 4097, 5000, 9000}).Draw(t, "bigValueLen")
+				}
 			}
 		}
 		if p.persist {
